@@ -5,10 +5,14 @@
 package main
 
 import (
+	"bufio"
 	"context"
+	"encoding/json"
 	"errors"
 	"fmt"
 	"io"
+	"os"
+	"os/exec"
 	"strconv"
 	"strings"
 	"sync"
@@ -27,7 +31,8 @@ import (
 const (
 	nMatch = 16
 	nExec  = 16
-	nWrap  = 18
+	nWrap  = 22 // 0..17 run their continuation while they are on the stack, 18..21 keep it for later
+	nKeep  = 18 // first keeping wrapper
 	// a run that records more than this many events is abandoned (nested
 	// wrappers multiply the work); the case is then not emitted.
 	maxEvents = 600
@@ -42,8 +47,47 @@ type run struct {
 }
 
 type rec struct {
-	run *run
-	ev  []int
+	run  *run
+	ev   []int
+	kept []*kept // continuations kept by wrappers 18..21, in trace order
+}
+
+// kept is a continuation a wrapper put aside, with the snapshot of the query
+// context taken at that moment. It is run after the top-level Exec returned.
+type kept struct {
+	pos    int // index in rec.ev after which the late runs are logged
+	w      int
+	n      int
+	copy   bool
+	next   sequence.ChainWalker
+	snap   *query_context.Context
+	blocks []int // what the late runs recorded
+}
+
+// merge appends what a sub-context recorded.
+func (r *rec) merge(sub *rec) {
+	off := len(r.ev)
+	for _, k := range sub.kept {
+		k.pos += off
+	}
+	r.kept = append(r.kept, sub.kept...)
+	r.ev = append(r.ev, sub.ev...)
+}
+
+// flat is the log with the late runs spliced in where the continuation was kept.
+func (r *rec) flat() []int {
+	var out []int
+	ki := 0
+	for i := 0; i <= len(r.ev); i++ {
+		for ki < len(r.kept) && r.kept[ki].pos == i {
+			out = append(out, r.kept[ki].blocks...)
+			ki++
+		}
+		if i < len(r.ev) {
+			out = append(out, r.ev[i])
+		}
+	}
+	return out
 }
 
 func (r *rec) add(v int) {
@@ -291,6 +335,15 @@ func (w hWrap) Exec(ctx context.Context, q *query_context.Context, next sequence
 	}
 	base := 10000 * (w.id + 1)
 	r.add(base)
+	if w.id >= nKeep {
+		// keep the continuation and a snapshot of the context, pass the query on
+		r.kept = append(r.kept, &kept{pos: len(r.ev), w: w.id, n: 1 + w.id%2, copy: w.id < 20, next: next, snap: q.Copy()})
+		err := next.ExecNext(ctx, q)
+		if err == nil {
+			r.add(base + 1)
+		}
+		return err
+	}
 	calls := w.id % 3
 	mode := (w.id / 3) % 3
 	switch mode {
@@ -308,7 +361,7 @@ func (w hWrap) Exec(ctx context.Context, q *query_context.Context, next sequence
 			sub := &rec{run: r.run}
 			c.StoreValue(recKey, sub)
 			err := next.ExecNext(ctx, c)
-			r.ev = append(r.ev, sub.ev...)
+			r.merge(sub)
 			r.add(base + 2 + respCode(c))
 			if err != nil {
 				return err
@@ -333,7 +386,7 @@ func (w hWrap) Exec(ctx context.Context, q *query_context.Context, next sequence
 		}
 		wg.Wait()
 		for i := range cs {
-			r.ev = append(r.ev, subs[i].ev...)
+			r.merge(subs[i])
 			r.add(base + 2 + respCode(cs[i]))
 			if errs[i] != nil {
 				return errs[i]
@@ -603,8 +656,15 @@ func staticBound(ss []tseq) int {
 			act = capAdd(1, rest)
 		case "wrap":
 			act = 2
-			for i := 0; i < t.arg%3; i++ {
-				act = capAdd(act, capAdd(1, rest))
+			if t.arg >= nKeep {
+				act = capAdd(act, rest)
+				for i := 0; i < 1+t.arg%2; i++ {
+					act = capAdd(act, capAdd(2, rest))
+				}
+			} else {
+				for i := 0; i < t.arg%3; i++ {
+					act = capAdd(act, capAdd(1, rest))
+				}
 			}
 		case "return":
 			act = after
@@ -630,14 +690,82 @@ func staticBound(ss []tseq) int {
 	return u(len(ss)-1, 0, 0)
 }
 
+// ---------- late runs of kept continuations ----------
+
+// interfere executes an unrelated program full of jumps on an unrelated query,
+// as happens between the moment a continuation is kept and the moment it is run.
+var interferer *sequence.Sequence
+
+func interfere() {
+	if interferer == nil {
+		ps := newRegistry()
+		m := coremain.NewTestMosdnsWithPlugins(ps)
+		mk := func(name string, ra ...string) *sequence.Sequence {
+			args := make([]sequence.RuleArgs, len(ra))
+			for i, e := range ra {
+				args[i].Exec = e
+			}
+			s, err := sequence.NewSequence(coremain.NewBP(name, m), args)
+			if err != nil {
+				panic(err)
+			}
+			ps[name] = s
+			return s
+		}
+		mk("ia", "$x12")
+		mk("ib", "$x12", "jump ia", "$x12")
+		mk("ic", "jump ib", "$x12", "jump ia", "$x12", "return")
+		interferer = mk("id", "jump ic", "$x12", "jump ib", "jump ia", "$x12", "$x12")
+	}
+	for i := 0; i < 2; i++ {
+		q := new(dns.Msg)
+		q.SetQuestion("other.example.", dns.TypeAAAA)
+		qc := query_context.NewContext(q)
+		qc.StoreValue(recKey, &rec{run: &run{}})
+		_ = interferer.Exec(context.Background(), qc)
+	}
+}
+
+// runLate runs every continuation kept while r was recorded (and, recursively,
+// those kept during the late runs), each after other programs have run.
+func runLate(r *rec) {
+	for _, k := range r.kept {
+		base := 10000 * (k.w + 1)
+		for i := 0; i < k.n; i++ {
+			interfere()
+			c := k.snap
+			if k.copy {
+				c = k.snap.Copy()
+			}
+			sub := &rec{run: r.run}
+			c.StoreValue(recKey, sub)
+			var err error
+			if p := hx.Recover(func() { err = k.next.ExecNext(context.Background(), c) }); p != nil {
+				err = &hErr{9999}
+			}
+			runLate(sub)
+			k.blocks = append(k.blocks, sub.flat()...)
+			k.blocks = append(k.blocks, base+2+respCode(c), base+3000+cur.decode(err))
+		}
+	}
+}
+
 // ---------- running ----------
 
 // force: which errors the failing plugins return (see newErrTable).
-func runProg(w *hx.Writer, id string, kind string, ss []tseq, init int, r *hx.RNG, force int) {
+func runProg(w emitter, id string, kind string, ss []tseq, init int, r *hx.RNG, force int) {
 	if len(ss) == 0 {
 		return
 	}
 	cur = newErrTable(r, force)
+	// should the code under test take the whole process down on this program
+	// (unbounded recursion is fatal in Go), this is what gets reported
+	w.Begin(kind, hx.Case{
+		ID:   id,
+		Coq:  hx.App("CProg", progCoq(ss), hx.Ni(init), hx.App("ORun", "[]", "9999", "0")),
+		Desc: map[string]any{"kind": kind, "seqs": len(ss), "init": init, "crashed": true},
+		FKey: kind,
+	})
 	if staticBound(ss) > maxEvents {
 		w.Tally("skipped-too-long", 1)
 		return
@@ -695,13 +823,18 @@ func runProg(w *hx.Writer, id string, kind string, ss []tseq, init int, r *hx.RN
 		if p := hx.Recover(func() { err = last.Exec(context.Background(), qCtx) }); p != nil {
 			err = &hErr{9999}
 		}
+		runLate(rc)
 		code := cur.decode(err)
 		if rn.aborted.Load() {
 			// cannot happen for a program within the static bound
 			code = 9997
 		}
-		obs = hx.App("ORun", hx.NList(rc.ev), hx.Ni(code), hx.Ni(respCode(qCtx)))
-		desc["events"] = len(rc.ev)
+		trace := rc.flat()
+		obs = hx.App("ORun", hx.NList(trace), hx.Ni(code), hx.Ni(respCode(qCtx)))
+		desc["events"] = len(trace)
+		if len(rc.kept) > 0 {
+			desc["kept_continuations"] = len(rc.kept)
+		}
 		desc["err"] = code
 		if err != nil {
 			desc["err_text"] = err.Error()
@@ -738,7 +871,7 @@ func runProg(w *hx.Writer, id string, kind string, ss []tseq, init int, r *hx.RN
 	})
 }
 
-func runParse(w *hx.Writer, id string, s string, isMatch bool) {
+func runParse(w emitter, id string, s string, isMatch bool) {
 	if isMatch {
 		tag, typ, args, rev := sequence.VerifParseMatch(s)
 		w.Emit("parse", hx.Case{
@@ -827,9 +960,12 @@ func genAction(r *hx.RNG, earlier []int, wrapBudget *int) (string, int) {
 				continue
 			}
 			*wrapBudget--
-			wid := r.Intn(nWrap)
+			wid := r.Intn(nKeep)
 			if r.Chance(2, 3) {
 				wid %= 9 // does not fail at the end
+			}
+			if r.Chance(1, 4) {
+				wid = r.Range(nKeep, nWrap-1) // keeps its continuation for later
 			}
 			return "wrap", wid
 		case 10:
@@ -900,6 +1036,91 @@ func genProg(r *hx.RNG) []tseq {
 		ss = append(ss, tseq{name, rules})
 		earlier = append(earlier, name)
 	}
+	return ss
+}
+
+// genChain produces the shapes in which "resume after the calling jump" has
+// to pass through exhausted sequences: main -> mid... -> inner, 2-3 levels of
+// nesting, the jump mostly being the LAST rule of each middle sequence, the
+// innermost ending through an executed explicit return (or its end, or a
+// wrapper that keeps / re-runs the rest), rules behind the outermost jump;
+// also under wrappers, with goto or $seq at a middle level.
+func genChain(r *hx.RNG) []tseq {
+	okExec := func() trule { return trule{kind: "exec", arg: 4 * r.Intn(4)} }
+	holding := func() []tmatch {
+		switch r.Intn(4) {
+		case 0:
+			return []tmatch{{false, 100}}
+		case 1:
+			return []tmatch{{true, 4*r.Intn(4) + 1}}
+		case 2:
+			return []tmatch{{false, 4 * r.Intn(4)}, {true, 101}}
+		}
+		return nil
+	}
+	wrapper := func() trule {
+		w := hx.Pick(r, []int{1, 2, 4, 5, 7, 8, 18, 19, 20, 21, 18, 19})
+		return trule{kind: "wrap", arg: w}
+	}
+	depth := r.Range(2, 3)
+	var ss []tseq
+	// innermost
+	var inner []trule
+	for i := r.Intn(3); i > 0; i-- {
+		inner = append(inner, okExec())
+	}
+	if r.Chance(1, 3) {
+		inner = append(inner, wrapper())
+		if r.Chance(1, 2) {
+			inner = append(inner, okExec())
+		}
+	}
+	switch r.Intn(6) {
+	case 0: // runs off its end
+	case 1:
+		inner = append(inner, trule{ms: []tmatch{{false, 4*r.Intn(4) + 1}}, kind: "return"}, okExec())
+	default:
+		inner = append(inner, trule{ms: holding(), kind: "return"}, trule{kind: "exec", arg: 1})
+	}
+	ss = append(ss, tseq{0, inner})
+	// middle sequences
+	for lvl := 1; lvl < depth; lvl++ {
+		var mid []trule
+		for i := r.Intn(2); i > 0; i-- {
+			mid = append(mid, okExec())
+		}
+		if r.Chance(1, 5) {
+			mid = append(mid, wrapper())
+		}
+		kind := "jump"
+		switch r.Intn(10) {
+		case 0:
+			kind = "goto"
+		case 1:
+			kind = "call"
+		}
+		mid = append(mid, trule{ms: holding(), kind: kind, arg: lvl - 1})
+		if r.Chance(1, 5) { // not the last rule after all
+			mid = append(mid, trule{ms: genMatchers(r), kind: "exec", arg: 4 * r.Intn(4)})
+		}
+		ss = append(ss, tseq{lvl, mid})
+	}
+	// main
+	var main []trule
+	if r.Chance(1, 2) {
+		main = append(main, okExec())
+	}
+	if r.Chance(1, 3) {
+		main = append(main, wrapper())
+	}
+	main = append(main, trule{ms: holding(), kind: "jump", arg: depth - 1})
+	for i := r.Range(1, 2); i > 0; i-- {
+		main = append(main, trule{ms: holding(), kind: "exec", arg: hx.Pick(r, []int{0, 4, 8, 12, 3, 7})})
+	}
+	if r.Chance(1, 4) {
+		main = append(main, trule{kind: "jump", arg: r.Intn(depth)})
+	}
+	ss = append(ss, tseq{depth, main})
 	return ss
 }
 
@@ -1165,13 +1386,120 @@ func catalogue() []catCase {
 		{"call-self", 0, []tseq{{0, []trule{ru("call", 0)}}}},
 		{"call-forward", 0, []tseq{{0, []trule{ru("call", 1)}}, {1, []trule{x(0)}}}},
 		{"wrapper-fails-at-end-top", 0, []tseq{{0, []trule{ru("wrap", 11), x(0)}}}},
+		// return through exhausted callers: the jump is the last rule of the middle sequence(s)
+		{"ret-one-level", 0, []tseq{
+			{0, []trule{x(0), ru("return", 0), x(1)}},
+			{2, []trule{x(8), ru("jump", 0), x(12)}}}},
+		{"ret-two-levels-middle-has-rule-left", 0, []tseq{
+			{0, []trule{x(0), ru("return", 0), x(1)}},
+			{1, []trule{x(4), ru("jump", 0), x(4)}},
+			{2, []trule{x(8), ru("jump", 1), x(12)}}}},
+		{"ret-two-levels-tail-jump", 0, []tseq{
+			{0, []trule{x(0), ru("return", 0, 100), x(1)}},
+			{1, []trule{x(4), ru("jump", 0)}},
+			{2, []trule{x(8), ru("jump", 1), x(12)}}}},
+		{"ret-two-levels-middle-unmatched-rule-left", 0, []tseq{
+			{0, []trule{x(0), ru("return", 0), x(1)}},
+			{1, []trule{x(4), ru("jump", 0), ru("exec", 1, 1)}},
+			{2, []trule{x(8), ru("jump", 1), x(12)}}}},
+		{"ret-inside-wrapper-middle-only-jump", 0, []tseq{
+			{0, []trule{ru("return", 0)}},
+			{1, []trule{ru("jump", 0)}},
+			{2, []trule{ru("wrap", 1), ru("jump", 1), ru("exec", 12, neg(101))}}}},
+		{"ret-three-levels-tail-jumps", 0, []tseq{
+			{0, []trule{x(0), ru("return", 0), x(1)}},
+			{1, []trule{ru("jump", 0)}},
+			{2, []trule{x(4), ru("jump", 1)}},
+			{3, []trule{x(8), ru("jump", 2), x(12), x(0)}}}},
+		{"ret-tail-jump-twice", 0, []tseq{
+			{0, []trule{ru("return", 0, neg(1))}},
+			{1, []trule{ru("jump", 0)}},
+			{2, []trule{ru("jump", 1), x(4), ru("jump", 1), x(8)}}}},
+		{"ret-tail-jump-wrapper-twice", 0, []tseq{
+			{0, []trule{x(0), ru("return", 0), x(1)}},
+			{1, []trule{ru("jump", 0)}},
+			{2, []trule{ru("wrap", 5), ru("jump", 1), x(12)}}}},
+		{"ret-tail-jump-wrapper-in-inner", 0, []tseq{
+			{0, []trule{ru("wrap", 2), x(0), ru("return", 0), x(1)}},
+			{1, []trule{x(4), ru("jump", 0)}},
+			{2, []trule{ru("jump", 1), x(12)}}}},
+		{"ret-tail-goto-middle", 0, []tseq{
+			{0, []trule{x(0), ru("return", 0), x(1)}},
+			{1, []trule{ru("goto", 0)}},
+			{2, []trule{ru("jump", 1)}},
+			{3, []trule{x(8), ru("jump", 2), x(1)}}}},
+		{"ret-tail-jump-below-goto", 0, []tseq{
+			{0, []trule{x(0), ru("return", 0), x(1)}},
+			{1, []trule{ru("jump", 0)}},
+			{2, []trule{ru("jump", 1), x(4)}},
+			{3, []trule{x(8), ru("goto", 2), x(1)}}}},
+		{"ret-tail-jump-in-callee", 0, []tseq{
+			{0, []trule{x(0), ru("return", 0), x(1)}},
+			{1, []trule{ru("jump", 0)}},
+			{2, []trule{ru("jump", 1), x(4)}},
+			{3, []trule{x(8), ru("call", 2), x(12)}}}},
+		{"end-two-levels-tail-jump", 0, []tseq{
+			{0, []trule{x(0)}},
+			{1, []trule{x(4), ru("jump", 0)}},
+			{2, []trule{x(8), ru("jump", 1), x(12)}}}},
+		// continuations kept by a wrapper and run after everything has returned
+		{"keep-top", 0, []tseq{{0, []trule{x(0), ru("wrap", 18), x(4), x(8)}}}},
+		{"keep-last-rule", 0, []tseq{{0, []trule{x(0), ru("wrap", 19)}}}},
+		{"keep-in-jumped", 0, []tseq{
+			{0, []trule{ru("wrap", 18), x(0)}},
+			{1, []trule{ru("jump", 0), x(4)}}}},
+		{"keep-in-jumped-twice-copies", 0, []tseq{
+			{0, []trule{ru("wrap", 19), x(0)}},
+			{1, []trule{ru("jump", 0), x(4)}}}},
+		{"keep-in-jumped-once-snapshot", 0, []tseq{
+			{0, []trule{ru("wrap", 20), x(0)}},
+			{1, []trule{ru("jump", 0), ru("exec", 7, neg(3)), ru("exec", 4, 3)}}}},
+		{"keep-in-jumped-twice-snapshot", 0, []tseq{
+			{0, []trule{ru("wrap", 21), x(0)}},
+			{1, []trule{ru("jump", 0), ru("exec", 7, neg(3)), ru("exec", 4, 3)}}}},
+		{"keep-two-jumps-deep", 0, []tseq{
+			{0, []trule{x(0), ru("wrap", 19), x(4)}},
+			{1, []trule{ru("jump", 0), x(8)}},
+			{2, []trule{x(12), ru("jump", 1), x(0), x(4)}}}},
+		{"keep-tail-jumps-return", 0, []tseq{
+			{0, []trule{ru("wrap", 19), x(0), ru("return", 0), x(1)}},
+			{1, []trule{ru("jump", 0)}},
+			{2, []trule{ru("jump", 1), x(12)}}}},
+		{"keep-in-each-level", 0, []tseq{
+			{0, []trule{ru("wrap", 18), x(0)}},
+			{1, []trule{ru("wrap", 20), ru("jump", 0), x(4)}},
+			{2, []trule{ru("jump", 1), x(8)}}}},
+		{"keep-continuation-fails", 0, []tseq{
+			{0, []trule{ru("wrap", 19), x(0)}},
+			{1, []trule{ru("jump", 0), x(5), x(4)}}}},
+		{"keep-continuation-rejects", 0, []tseq{
+			{0, []trule{ru("wrap", 21), ru("exec", 0, 3)}},
+			{1, []trule{ru("jump", 0), ru("reject", 2), x(1)}}}},
+		{"keep-below-goto", 0, []tseq{
+			{0, []trule{ru("wrap", 18), x(0)}},
+			{1, []trule{ru("goto", 0), x(1)}},
+			{2, []trule{ru("jump", 1), x(1)}}}},
+		{"keep-in-callee", 0, []tseq{
+			{0, []trule{ru("wrap", 19), x(0)}},
+			{1, []trule{ru("jump", 0), x(4)}},
+			{2, []trule{ru("call", 1), x(8)}}}},
+		{"keep-inside-copy-wrapper", 0, []tseq{
+			{0, []trule{ru("wrap", 18), x(0)}},
+			{1, []trule{ru("wrap", 5), ru("jump", 0), x(4)}}}},
+		{"keep-inside-concurrent-wrapper", 0, []tseq{
+			{0, []trule{ru("wrap", 20), x(0)}},
+			{1, []trule{ru("wrap", 8), ru("jump", 0), x(4)}}}},
+		{"keep-jumped-twice", 0, []tseq{
+			{0, []trule{ru("wrap", 18), x(0)}},
+			{1, []trule{ru("jump", 0), x(4), ru("jump", 0), x(8)}}}},
+		{"keep-not-matched", 0, []tseq{{0, []trule{ru("wrap", 19, 1), x(0)}}}},
 		// building
 		{"self-jump", 0, []tseq{{0, []trule{ru("jump", 0)}}}},
 		{"self-goto", 0, []tseq{{0, []trule{x(0), ru("goto", 0)}}}},
 		{"forward-jump", 0, []tseq{{0, []trule{ru("jump", 1)}}, {1, []trule{x(0)}}}},
 		{"second-fails", 0, []tseq{{0, []trule{x(0)}}, {1, []trule{ru("jump", 0), ru("goto", 2)}}, {2, nil}}},
 		{"unknown-exec", 0, []tseq{{0, []trule{x(16)}}}},
-		{"unknown-wrap", 0, []tseq{{0, []trule{ru("wrap", 18)}}}},
+		{"unknown-wrap", 0, []tseq{{0, []trule{ru("wrap", 22)}}}},
 		{"unknown-matcher", 0, []tseq{{0, []trule{ru("exec", 0, 0, 16)}}}},
 		{"unknown-matcher-negated", 0, []tseq{{0, []trule{ru("exec", 0, neg(102))}}}},
 		{"shadow-latest", 0, []tseq{
@@ -1189,16 +1517,113 @@ func catalogue() []catCase {
 	}
 }
 
-func main() {
-	o := hx.ParseFlags()
+// ---------- supervisor / worker ----------
+//
+// The cases are produced by a worker process (this binary with C06_WORKER=1)
+// that prints them to its stdout; the supervisor copies them to the output. If
+// the worker dies in the middle of a case (a fatal stack overflow cannot be
+// recovered inside the process), the supervisor reports that case as observed
+// "crash" (error 9999, which no model predicts) and starts a new worker behind it.
+
+type emitter interface {
+	Begin(kind string, c hx.Case)
+	Emit(kind string, c hx.Case)
+	Tally(kind string, n int)
+}
+
+type wireLine struct {
+	Op   string  `json:"op"` // begin | case | tally
+	Kind string  `json:"kind"`
+	Idx  int     `json:"idx,omitempty"`
+	N    int     `json:"n,omitempty"`
+	Case hx.Case `json:"case"`
+}
+
+type workerOut struct{ enc *json.Encoder }
+
+func (w workerOut) Begin(kind string, c hx.Case) {
+	w.enc.Encode(wireLine{Op: "begin", Kind: kind, Idx: caseIdx - 1, Case: c})
+}
+func (w workerOut) Emit(kind string, c hx.Case) {
+	w.enc.Encode(wireLine{Op: "case", Kind: kind, Case: c})
+}
+func (w workerOut) Tally(kind string, n int) { w.enc.Encode(wireLine{Op: "tally", Kind: kind, N: n}) }
+
+// caseIdx numbers all cases of a run; a restarted worker skips the ones before skipBefore.
+var caseIdx, skipBefore int
+
+func want(o *hx.Opts, id string) bool {
+	i := caseIdx
+	caseIdx++
+	return i >= skipBefore && o.Want(id)
+}
+
+func supervise(o *hx.Opts) {
 	w := hx.NewWriter(o)
 	defer w.Close()
+	skip := 0
+	for restarts := 0; restarts < 200; restarts++ {
+		args := []string{"-seed", strconv.FormatUint(o.Seed, 10), "-tier", o.Tier}
+		if o.Only != "" {
+			args = append(args, "-only", o.Only)
+		}
+		if o.N > 0 {
+			args = append(args, "-n", strconv.Itoa(o.N))
+		}
+		cmd := exec.Command(os.Args[0], args...)
+		cmd.Env = append(os.Environ(), "C06_WORKER=1", "C06_SKIP="+strconv.Itoa(skip))
+		out, err := cmd.StdoutPipe()
+		if err != nil || cmd.Start() != nil {
+			fmt.Fprintln(os.Stderr, "c06: cannot start the worker process")
+			os.Exit(2)
+		}
+		var pending *wireLine
+		sc := bufio.NewScanner(out)
+		sc.Buffer(make([]byte, 1<<20), 1<<26)
+		for sc.Scan() {
+			var l wireLine
+			if json.Unmarshal(sc.Bytes(), &l) != nil {
+				continue
+			}
+			switch l.Op {
+			case "begin":
+				l := l
+				pending = &l
+			case "case":
+				pending = nil
+				w.Emit(l.Kind, l.Case)
+			case "tally":
+				pending = nil
+				w.Tally(l.Kind, l.N)
+			}
+		}
+		if cmd.Wait() == nil {
+			return
+		}
+		if pending == nil {
+			fmt.Fprintln(os.Stderr, "c06: the worker process failed outside a case")
+			os.Exit(2)
+		}
+		w.Emit(pending.Kind, pending.Case)
+		w.Tally("worker-crashes", 1)
+		skip = pending.Idx + 1
+	}
+}
+
+func main() {
+	o := hx.ParseFlags()
+	if os.Getenv("C06_WORKER") == "" {
+		supervise(o)
+		return
+	}
+	skipBefore, _ = strconv.Atoi(os.Getenv("C06_SKIP"))
+	w := workerOut{json.NewEncoder(os.Stdout)}
 
 	for _, c := range catalogue() {
 		// every catalogue program in three seeded renderings (same literal, different rule text)
 		for v := 0; v < 3; v++ {
 			id := fmt.Sprintf("cat:%s:%d", c.name, v)
-			if !o.Want(id) {
+			if !want(o, id) {
 				continue
 			}
 			r := hx.NewRNG(o.Seed, id)
@@ -1212,7 +1637,7 @@ func main() {
 	} {
 		for mi, isMatch := range []bool{true, false} {
 			id := fmt.Sprintf("cat:parse:%d:%d", i, mi)
-			if o.Want(id) {
+			if want(o, id) {
 				runParse(w, id, s, isMatch)
 			}
 		}
@@ -1221,13 +1646,19 @@ func main() {
 	n := o.Count(1500, 40000)
 	for i := 0; i < n; i++ {
 		id := fmt.Sprintf("gen:%d", i)
-		if !o.Want(id) {
+		if !want(o, id) {
 			continue
 		}
 		r := hx.NewRNG(o.Seed, id)
-		ss := genProg(r)
+		var ss []tseq
 		kind := "program"
-		if r.Chance(1, 12) {
+		if i%4 == 3 {
+			ss = genChain(r)
+			kind = "chain"
+		} else {
+			ss = genProg(r)
+		}
+		if kind == "program" && r.Chance(1, 12) {
 			ss = breakProg(r, ss)
 			kind = "malformed"
 		}
@@ -1240,7 +1671,7 @@ func main() {
 	np := o.Count(150, 5000)
 	for i := 0; i < np; i++ {
 		id := fmt.Sprintf("parse:%d", i)
-		if !o.Want(id) {
+		if !want(o, id) {
 			continue
 		}
 		r := hx.NewRNG(o.Seed, id)
